@@ -55,6 +55,7 @@ class Exec(HeapMixin, ExprMixin, CallMixin, StmtMixin):
         self.facts = []
         self.qguards = []
         self.qvars = []
+        self._fact_ids = set()
         self.obs = []
         self.script = []
         self.pos = 0
@@ -76,6 +77,7 @@ class Exec(HeapMixin, ExprMixin, CallMixin, StmtMixin):
         self.spec_globals = {}
         self.assumptions_used = set()
         self.cur = None              # contract under verification
+        self.view = None
         self.cur_fi = None
         self.path_id = 0
         self.ob_counter = {}
@@ -170,7 +172,7 @@ class Exec(HeapMixin, ExprMixin, CallMixin, StmtMixin):
     def cur_local_types(self):
         fr = self.frame
         if fr is not None and fr.fi is not None:
-            c = self.specs.lookup(fr.fi)
+            c = self.specs.lookup(fr.fi, self.view)
             if c is not None:
                 return c.locals
         return {}
@@ -557,7 +559,7 @@ class Exec(HeapMixin, ExprMixin, CallMixin, StmtMixin):
     def loop_spec(self, fi, ordn):
         if fi is None:
             return None
-        c = self.specs.lookup(fi)
+        c = self.specs.lookup(fi, self.view)
         if c is None:
             return None
         return c.loops.get(ordn)
@@ -572,8 +574,11 @@ class Exec(HeapMixin, ExprMixin, CallMixin, StmtMixin):
         env = self.inv_env()
         env['entry'] = VOld(dict(self.frame.locals), entry_state)
         for pred in spec.get('invariant', []):
+            props = spec.get('props')
+            if isinstance(pred, tuple):
+                pred, props = pred
             for label, term in self.spec_terms(pred, env):
-                self.oblige(f'{kind}:L{ordn}:{label}', term, kind='inv', props=spec.get('props'))
+                self.oblige(f'{kind}:L{ordn}:{label}', term, kind='inv', props=props)
         if kind == 'inv-step' and spec.get('modifies') is not None:
             self.frame_check(self._loop_head, spec['modifies'], env, f'L{ordn}', spec.get('props'),
                              alloc0=self.arr('alloc', entry_state))
@@ -582,6 +587,8 @@ class Exec(HeapMixin, ExprMixin, CallMixin, StmtMixin):
         env = self.inv_env()
         env['entry'] = VOld(dict(self.frame.locals), entry_state)
         for pred in spec.get('invariant', []):
+            if isinstance(pred, tuple):
+                pred = pred[0]
             for label, term in self.spec_terms(pred, env):
                 self.assume(term)
         self._loop_head = self.S.copy()
@@ -625,9 +632,12 @@ class Exec(HeapMixin, ExprMixin, CallMixin, StmtMixin):
                 for label, term in self.spec_terms(pred, env):
                     self.oblige(f'call-pre:{callee}:{label}', term, kind='call-pre')
                     self.assume(term)
+            menv = dict(env)
+            if fr is not None:
+                menv['caller'] = VOld(dict(fr.locals), None)
             for tag, preds in c.monitor.items():
                 for pred in preds:
-                    for label, term in self.spec_terms(pred, env):
+                    for label, term in self.spec_terms(pred, menv):
                         self.oblige(f'assert:{label}', term, kind='assert', props=[tag])
                         self.assume(term)
             # 2. outcomes
@@ -640,7 +650,9 @@ class Exec(HeapMixin, ExprMixin, CallMixin, StmtMixin):
             if choice == 0:
                 self.havoc(c.modifies, env)
                 if c.effects is not None:
-                    c.effects(self, env2, pre)
+                    from . import hooks as _hooks
+                    for eff in ([c.effects] if isinstance(c.effects, str) else c.effects):
+                        _hooks.EFFECTS[eff](self, env2, pre)
                 result = VNone()
                 if c.returns is not None:
                     result = self.sym_value(f'res_{callee.replace(".", "_")}!{self.ctx.n}', c.returns)
